@@ -38,6 +38,9 @@ def rename_rules(ast, rng):
     return [(f(r[0]), [(c[0], f(c[1])) if c[0] == 'ref' else c for c in r[1]], r[2], [f(s) for s in r[3]]) for r in ast]
 
 
+SANEB_MAX_NODES = 400
+
+
 def check_static(ctx, ast, fe, kind, tag):
     M = ctx.call
     rng = ctx.rng
@@ -73,9 +76,12 @@ def check_static(ctx, ast, fe, kind, tag):
         if r[0] == 'err':
             ctx.violation('compile_lvs', 'rejects-well-formed-schema', f'schema without static error does not compile: {r[2]}', case)
         elif final[0] == 'err':
-            acyc = M([9, L.dump_model(r[1])])
+            # Spec sign_acyclicb walks reach_set (cubic in the number of nodes): large models are judged on the error class only
+            acyc = M([9, L.dump_model(r[1])]) if len(r[1].nodes) <= SANEB_MAX_NODES else 0
             if acyc or final[1] != L.E_SEMANTIC:
                 ctx.violation('Checker()', 'compiled-model-rejected', f'model compiled from a well-formed schema is rejected: {final[2]}', case)
+        elif len(r[1].nodes) > SANEB_MAX_NODES:
+            ctx.stat('static.saneb-skipped-large-model')     # Spec saneb is cubic in the number of nodes (1200 nodes: minutes)
         else:
             if not M([7, L.dump_model(r[1])]):
                 ctx.violation('compile_lvs', 'compiled-model-not-sane', 'compiled model breaks a documented sanity rule', case)
@@ -174,6 +180,9 @@ def run(ctx):
     done = 0
     while done < nsch:
         ast, fe, lits = g.schema()
+        if L.too_big(L.impl_compile(L.txt_ast(ast))):
+            ctx.stat('static.skipped-huge-schema')
+            continue
         if not ctx.call([8, L.sx_ast(ast)])[0]:
             check_static(ctx, ast, fe, 'none', 'static')     # generator produced an ill-formed schema itself
             continue
